@@ -20,4 +20,14 @@ META = {
           "(damaged frame of weight<=3 never delivered; valid frame after noise found). Held = no disagreement on the executions produced."),
     note="Trusted: /verif reference framer and bit-serial CRC (self-tested against the IEEE 1815 reset-link vector and round trips). Completeness in discard mode is asserted against the leftmost-valid-frame scanner; frames overlapping an earlier valid header are out of scope.",
  ),
+ "C08": dict(
+    engine="vh",
+    design_ref="5.8",
+    technique="runtime monitor: round trip Writer->wire->Reader checked by reference de-framer/segmenter, plus run-explanation (soundness) and clean-run (completeness) rules over uniquely tagged mutated segment streams",
+    text=("Exploration with an exhaustive length sweep. The real transport::real::{Writer,Reader} and link Layer run over PhysLayer::Verif. "
+          "Writer output for every length is decoded by the reference de-framer: ceil(n/249) segments, FIR first only, FIN last only, consecutive sequence across fragments, reset() restarts at 0. "
+          "Reader: every delivered fragment must be explainable as a well-formed run (same source/broadcast identity, FIR first, FIN last, consecutive 6-bit sequence, <= rx buffer) of the injected tagged segments; "
+          "every contiguous well-formed run in the injected stream, in particular the clean fragment after the damage, must be delivered. Both roles, both error modes, all 108 decode levels sampled."),
+    note="Trusted: /verif reference framer/segmenter. Segment payloads are random tags (uniqueness probabilistic, >=6 bytes). The reference reassembler model is reported as evidence only, not as an oracle.",
+ ),
 }
